@@ -29,6 +29,9 @@ type c05Case struct {
 	// Unchecked: before the write the same browser serves a root selection with Browser.DisableConstraints on (the way
 	// legacy data is loaded unchecked); the flag is off again for the write
 	Unchecked bool `json:"unchecked,omitempty"`
+	// Via: how leaf x comes by the restricted type: "" = it is x's own type; "leafref" = x is a leafref to a sibling
+	// leaf of that type; "union" = x is a union of that type and boolean
+	Via string `json:"via,omitempty"`
 }
 
 func c05Module(c c05Case) *dm.Module {
@@ -61,7 +64,17 @@ func c05Module(c c05Case) *dm.Module {
 	if c.LeafList {
 		kind = "leaf-list"
 	}
-	m.Top = []*dm.Node{{Kind: "container", Name: "c", Children: []*dm.Node{{Kind: kind, Name: "x", Type: lt}, {Kind: "leaf", Name: "other", Type: &dm.Type{Base: "string"}}}}}
+	xt := lt
+	children := []*dm.Node{}
+	switch c.Via {
+	case "leafref":
+		children = append(children, &dm.Node{Kind: "leaf", Name: "tgt", Type: lt})
+		xt = &dm.Type{Base: "leafref", Path: "../tgt", Target: lt}
+	case "union":
+		xt = &dm.Type{Base: "union", Members: []*dm.Type{lt, {Base: "boolean"}}}
+	}
+	children = append(children, &dm.Node{Kind: kind, Name: "x", Type: xt}, &dm.Node{Kind: "leaf", Name: "other", Type: &dm.Type{Base: "string"}})
+	m.Top = []*dm.Node{{Kind: "container", Name: "c", Children: children}}
 	return m
 }
 
@@ -161,6 +174,10 @@ func c05Run(c c05Case, o *hx.Obs) {
 	disc = uniqStrings(disc)
 	o.Class("kind=%s", kind)
 	o.Class("path=%s", c.Path)
+	if c.Via != "" {
+		o.Class("restricted type reached via %s", c.Via)
+		disc = append(disc, "via-"+c.Via)
+	}
 	if len(c.Levels) > 1 || multiAlt || npat > 1 {
 		o.NonTrivial()
 	}
@@ -433,6 +450,10 @@ var c05Patterns = []string{"[a-c]*", "a+b?", "(ab|c)+", "[a-c]{2,4}", "a.*", "b.
 func c05Gen(t *rapid.T) c05Case {
 	c := c05GenBase(t)
 	c.Unchecked = rapid.IntRange(0, 3).Draw(t, "unchecked-before") == 0
+	c.Via = rapid.SampledFrom([]string{"", "", "", "leafref", "union"}).Draw(t, "via")
+	if c.Via == "union" && c.LeafList {
+		c.Via = "" // (the harness has no leaf-lists of unions)
+	}
 	return c
 }
 
